@@ -52,6 +52,9 @@ var Registry = map[string]*PkgEntry{}
 
 // NewPkgEntry registers a package.
 func NewPkgEntry(name string) *PkgEntry {
+	if p := Registry[name]; p != nil {
+		return p // a second schema file of the same Go package
+	}
 	p := &PkgEntry{Name: name,
 		Structs: map[string]*StructEntry{}, Groups: map[string]func(capnp.Struct) interface{}{},
 		Enums: map[string]*EnumEntry{}, Ifaces: map[string]*IfaceEntry{},
